@@ -104,6 +104,7 @@ type obs19 struct {
 	Cookie *string  `json:"set_cookie,omitempty"` // abstract id S<n>
 	Hash   bool     `json:"hash_in_body,omitempty"`
 	Panic  string   `json:"panic,omitempty"`
+	Hung   string   `json:"no_reply,omitempty"` // the request got no reply within the per-request deadline
 }
 type aobs struct {
 	User, NameID string
@@ -200,18 +201,22 @@ func (f *faultStore) List(prefix string) ([]string, error) {
 // ---------------------------------------------------------------------------
 // executing one history against the real server
 
+// every request runs under this deadline; bcrypt at DefaultCost needs well under 0.2 s
+const requestDeadline = 4 * time.Second
+
 var clockBase = time.Date(2020, 1, 1, 0, 0, 0, 0, time.UTC)
 
 type world19 struct {
-	fs       *faultStore
-	srv      *samlidp.Server
-	clock    int64
-	abs2real map[string]string
-	real2abs map[string]string
-	minimal  bool
-	dead     string            // set when a (re)start hung or failed: the rest of the history is not run
-	svcEnt   map[string]string // ghost: stored service id -> entity ID (for the duplicate-entity class)
-	dup      bool
+	fs        *faultStore
+	srv       *samlidp.Server
+	clock     int64
+	abs2real  map[string]string
+	real2abs  map[string]string
+	minimal   bool
+	hungCount int
+	dead      string            // set when a (re)start hung or failed: the rest of the history is not run
+	svcEnt    map[string]string // ghost: stored service id -> entity ID (for the duplicate-entity class)
+	dup       bool
 }
 
 func (w *world19) realID(x string) string {
@@ -362,7 +367,17 @@ func (w *world19) exec(o hop19) obs19 {
 		panic("unknown op " + o.Kind)
 	}
 	q.emptyCookie = emptyCk && (o.Kind == "login" || o.Kind == "sso" || o.Kind == "launch")
-	rec, p := serve(w.srv, q)
+	if w.hungCount >= 3 {
+		// three requests in a row got no reply: the server is wedged; the rest is recorded as unanswered without waiting again
+		return obs19{Body: "error", Hung: "not waited for: the three preceding requests got no reply within " + requestDeadline.String()}
+	}
+	rec, p, hung := serveDeadline(w.srv, q, requestDeadline)
+	if hung {
+		// no reply at all: zero replies started; judged by the one-reply clause of the spec
+		w.hungCount++
+		return obs19{Body: "error", Hung: "no reply within " + requestDeadline.String()}
+	}
+	w.hungCount = 0
 	ob := obs19{N: rec.explicitWH, Status: rec.status()}
 	if rec.implicit {
 		ob.N++
